@@ -132,6 +132,18 @@ fn chk<T: CheckRestrictions>(v: &T) -> String {
     }
 }
 
+/// the verdicts of a sequence of checks of ONE value under changing handed-down restrictions (none, at most one
+/// character, none, generous, at most one character): what a referent of a shared value sees over time
+fn chk_hist<T: CheckRestrictions>(v: &T) -> String {
+    let tight = || Some(Rc::new(Restrictions { max_length: Some(1), ..Default::default() }));
+    let loose = || Some(Rc::new(Restrictions { max_length: Some(1000), ..Default::default() }));
+    let ctxs: Vec<Option<Rc<Restrictions>>> = vec![None, tight(), None, loose(), tight()];
+    ctxs.into_iter()
+        .map(|r| if v.check_restrictions(r).is_ok() { "ok" } else { "err" })
+        .collect::<Vec<_>>()
+        .join(",")
+}
+
 fn tree_bare(depth: u64, count: u64, t: &str) -> TreeBare {
     TreeBare { label: t.to_string(), children: if depth == 0 { vec![] } else { (0..count).map(|_| tree_bare(depth - 1, count, t)).collect() } }
 }
@@ -158,6 +170,7 @@ pub fn run(case: &Value) -> Vec<String> {
             obs("ser_root", ser(&bare), ser(&wrapped));
             obs("debug", format!("{bare:?}"), format!("{wrapped:?}"));
             obs("check", chk(&bare), chk(&wrapped));
+            obs("check_hist", chk_hist(&bare), chk_hist(&wrapped));
             let xml = ser(&bare);
             obs("de_root", de_dbg::<Leaf>(&xml), de_dbg::<MultiRef<Leaf>>(&xml));
             obs("default", format!("{:?}", Leaf::default()), format!("{:?}", MultiRef::<Leaf>::default()));
@@ -179,8 +192,15 @@ pub fn run(case: &Value) -> Vec<String> {
             obs("ser_root", ser(&bare), ser(&wrapped));
             obs("debug", format!("{bare:?}"), format!("{wrapped:?}"));
             obs("check", chk(&bare), chk(&wrapped));
+            obs("check_hist", chk_hist(&bare), chk_hist(&wrapped));
+            // a clone shares the value; it must not share (or must forward through) anything that changes the verdict
+            let shared = wrapped.clone();
+            obs("check_hist_clone", chk_hist(&bare), chk_hist(&shared));
             let xml = ser(&bare);
             obs("de_root", de_dbg::<Attrs>(&xml), de_dbg::<MultiRef<Attrs>>(&xml));
+            if let Ok(d) = yaserde::de::from_str::<MultiRef<Attrs>>(&xml) {
+                obs("check_hist_de", chk_hist(&bare), chk_hist(&d));
+            }
             // flattened member: attributes are hoisted through serialize_attributes
             let fb = FlatBare { inner: bare.clone() };
             let fw = FlatWrapped { inner: MultiRef::new(bare.clone()) };
@@ -200,6 +220,7 @@ pub fn run(case: &Value) -> Vec<String> {
             obs("ser_field", ser(&bare), ser(&wrapped));
             obs("debug_field", format!("{bare:?}").replace("NestedBare", "Nested"), format!("{wrapped:?}").replace("NestedWrapped", "Nested"));
             obs("check_field", chk(&bare), chk(&wrapped));
+            obs("check_hist_field", chk_hist(&bare), chk_hist(&wrapped));
             let xml = ser(&bare);
             obs("de_field", de_dbg::<NestedBare>(&xml).replace("NestedBare", "Nested"), de_dbg::<NestedWrapped>(&xml).replace("NestedWrapped", "Nested"));
             obs("default_field", format!("{:?}", NestedBare::default()).replace("NestedBare", "Nested"), format!("{:?}", NestedWrapped::default()).replace("NestedWrapped", "Nested"));
